@@ -1164,7 +1164,7 @@ def run(chk, replay=None):
             binaries.append(Binary(len(binaries), LANGS[lk], "generated", source=text, flavour=flavour,
                                    mapfile=gen_mapfile(random.Random(2000 + len(binaries)), LANGS[lk])))
             binaries[-1].probe = True
-        gen = make_binaries(chk, QUICK_PLAN, start_idx=len(binaries), scale=1 if quick else 25)
+        gen = make_binaries(chk, QUICK_PLAN, start_idx=len(binaries), scale=1 if quick else int(os.environ.get("VERIF_C01_SCALE", "25")))
         binaries += gen
         todo = []
         for b in binaries:
